@@ -494,6 +494,14 @@ func (b *broker) syncDelSubscription(sub *subscription) {
 	}
 }
 
+// syncKeepsHistory tells if the subscription was created for a topic with
+// event history. Such a subscription exists independently of subscribers, so
+// that history is retained while nobody is subscribed.
+func (b *broker) syncKeepsHistory(sub *subscription) bool {
+	_, ok := b.eventHistoryStore[sub]
+	return ok
+}
+
 // syncUnsibsubscribe removes the subscriber from the specified subscription.
 func (b *broker) syncUnsubscribe(subscriber *wamp.Session, msg *wamp.Unsubscribe) {
 	subID := msg.Subscription
@@ -519,7 +527,7 @@ func (b *broker) syncUnsubscribe(subscriber *wamp.Session, msg *wamp.Unsubscribe
 	// If no more subscribers on this subscription, delete subscription and
 	// send on_delete meta event.
 	var delLastSub bool
-	if len(sub.subscribers) == 0 {
+	if len(sub.subscribers) == 0 && !b.syncKeepsHistory(sub) {
 		b.syncDelSubscription(sub)
 		delLastSub = true
 	}
@@ -572,7 +580,7 @@ func (b *broker) syncRemoveSession(subscriber *wamp.Session) {
 		delete(sub.subscribers, subscriber)
 
 		// If no more subscribers on this subscription.
-		if len(sub.subscribers) == 0 {
+		if len(sub.subscribers) == 0 && !b.syncKeepsHistory(sub) {
 			b.syncDelSubscription(sub)
 			// Fired when a subscription is deleted after the last session
 			// attached to it has been removed.
